@@ -1422,3 +1422,60 @@ Proof.
   rewrite Hbx, Hby, Hn, Hsy, flat_map_map. cbn [fst snd]. apply flat_map_ext. intro i.
   rewrite map_map. reflexivity.
 Qed.
+
+(* ================================================================== values of the reduction kernels *)
+(* sum_fw / max_fw / min_fw / logsumexp_fw: the per-output function is applied to the axis slice *)
+Theorem axis_red_eval (T : Type) (dflt : T) (U : Type) (f : list T -> U)
+  (sx sy : tshape) (dim base n R : nat) (x : list T) (d : nat) (v : U) :
+  tlower sy dim = base -> tget sx dim = n -> tsize sy = base * R -> 0 < base ->
+  (In (d, v) (red_eval T dflt f (axis_red sx sy dim) x) <->
+   exists low high, low < base /\ high < R /\ d = flat base 1 low 0 high /\
+     v = f (axis_slice T dflt x base n low high)).
+Proof. intros H1 H2 H3 H4. rewrite (axis_red_nest sx sy dim base n R H1 H2 H3). apply axis_nest_eval. exact H4. Qed.
+
+(* sum_fw over a commutative monoid: the fold of the slice in any order *)
+Theorem axis_red_fold (T : Type) (dflt e : T) (op : T -> T -> T)
+  (op_comm : forall a b, op a b = op b a) (op_assoc : forall a b c, op a (op b c) = op (op a b) c)
+  (sx sy : tshape) (dim base n R : nat) (x : list T) (d : nat) (v : T) :
+  tlower sy dim = base -> tget sx dim = n -> tsize sy = base * R -> 0 < base ->
+  In (d, v) (red_eval T dflt (fold_red T e op) (axis_red sx sy dim) x) ->
+  exists low high, low < base /\ high < R /\ d = flat base 1 low 0 high /\
+    forall l, Permutation l (axis_slice T dflt x base n low high) -> v = fold_red T e op l.
+Proof.
+  intros H1 H2 H3 H4. rewrite (axis_red_nest sx sy dim base n R H1 H2 H3).
+  apply axis_nest_fold; assumption.
+Qed.
+
+(* max_fw (fst) with the scan of the C++: the maximum of the slice, first attained at snd *)
+Theorem axis_red_max (T : Type) (leb : T -> T -> bool)
+  (leb_total : forall a b, leb a b = true \/ leb b a = true)
+  (leb_trans : forall a b c, leb a b = true -> leb b c = true -> leb a c = true)
+  (dflt : T) (sx sy : tshape) (dim base n R : nat) (x : list T) (d : nat) (r : T * nat) :
+  tlower sy dim = base -> tget sx dim = n -> tsize sy = base * R -> 0 < base -> 0 < n ->
+  In (d, r) (red_eval T dflt (max_scan T leb dflt) (axis_red sx sy dim) x) ->
+  exists low high, low < base /\ high < R /\ d = flat base 1 low 0 high /\
+    let xs := fun j => nth (flat base n low j high) x dflt in
+    snd r < n /\ fst r = xs (snd r) /\
+    (forall j, j < n -> leb (xs j) (fst r) = true) /\
+    (forall j, j < snd r -> gtb T leb (fst r) (xs j) = true).
+Proof.
+  intros H1 H2 H3 H4 H5. rewrite (axis_red_nest sx sy dim base n R H1 H2 H3).
+  apply axis_nest_argmax; assumption.
+Qed.
+
+(* argmax_impl: entry (low, high) of the result is the FIRST index of the maximum of the slice *)
+Theorem arg_red_argmax (T : Type) (leb : T -> T -> bool)
+  (leb_total : forall a b, leb a b = true \/ leb b a = true)
+  (leb_trans : forall a b c, leb a b = true -> leb b c = true -> leb a c = true)
+  (dflt : T) (sx : tshape) (dim base n R : nat) (x : list T) (d : nat) (r : T * nat) :
+  tlower sx dim = base -> tget sx dim = n -> tsize sx = base * n * R -> 0 < base -> 0 < n ->
+  In (d, r) (red_eval T dflt (max_scan T leb dflt) (arg_red sx dim) x) ->
+  exists low high, low < base /\ high < R /\ d = flat base 1 low 0 high /\
+    let xs := fun j => nth (flat base n low j high) x dflt in
+    snd r < n /\ fst r = xs (snd r) /\
+    (forall j, j < n -> leb (xs j) (fst r) = true) /\
+    (forall j, j < snd r -> gtb T leb (fst r) (xs j) = true).
+Proof.
+  intros H1 H2 H3 H4 H5. rewrite (arg_red_nest sx dim base n R H1 H2 H3 H4 H5).
+  apply axis_nest_argmax; assumption.
+Qed.
